@@ -125,7 +125,8 @@ func (c *Ctx) Ledger() *ledgerModel {
 		if cs := callers[fn]; len(cs) > 0 {
 			all := true
 			for _, cl := range cs {
-				if !m.appends[cl] {
+				// the undo path itself (stateChange.revert methods) restores values without journaling them
+				if !m.appends[cl] && cl.Name() != "revert" {
 					all = false
 				}
 			}
